@@ -95,7 +95,11 @@ def run(pid, tier):
 
     # ---- geometry-built grids (up to ~200 blocks): reorder / rename / minc drivers
     leaves = []
-    big = big_grid_traces(t2grids, rng, 6 if quick else 40, leaves)
+    recomputed = []
+    big = big_grid_traces(t2grids, rng, 6 if quick else 40, leaves, recomputed)
+    if "C09_PhysUnchanged" in mine:
+        for r_ in recomputed:
+            rep.violation("calculate_block_centres", "C09_PhysUnchanged", r_)
     for t in big:
         traces.append([{"act": e["act"], "state": e["state"]} for e in t])
         meta.append(("c2s-geo", t))
@@ -167,7 +171,7 @@ def run(pid, tier):
     return rep.finish()
 
 
-def big_grid_traces(t2grids, rng, n, leaves):
+def big_grid_traces(t2grids, rng, n, leaves, recomputed):
     """Grids built from rectangular geometries (up to ~200 blocks), abstracted onto
     the spec's name space by numbering blocks; rename/reorder/minc sequences."""
     import numpy as np
@@ -180,7 +184,22 @@ def big_grid_traces(t2grids, rng, n, leaves):
                                                  [7.0 * (i + 2) for i in range(ny)],
                                                  [3.0 * (i + 1) for i in range(nz)],
                                                  atmos_type=rng.choice([0, 1, 2]))
+            if rng.random() < 0.5:
+                geo.gdcx, geo.gdcy = rng.choice([0.1, 0.0, -0.2]), rng.choice([0.2, 0.05])      # a tilted model: horizontal connections feel gravity
+            if rng.random() < 0.5:
+                for c_ in geo.columnlist[::3]:                                                     # topography
+                    c_.surface = geo.layerlist[0].bottom - 0.75 * geo.layerlist[1].thickness
+                    geo.set_column_num_layers(c_)
+                geo.setup_block_name_index()
+                geo.setup_block_connection_name_index()
             grid = t2grids.t2grid().fromgeo(geo)
+            # recomputing the block centres from the geometry gives the centres the grid was built with
+            c0 = dict((b.name, None if b.centre is None else [float(x) for x in b.centre]) for b in grid.blocklist)
+            grid.calculate_block_centres(geo)
+            c1 = dict((b.name, None if b.centre is None else [float(x) for x in b.centre]) for b in grid.blocklist)
+            if c0 != c1:
+                recomputed.append({"atmosphere_type": geo.atmosphere_type, "blocks": len(c0),
+                                   "first_difference": next([n_, c0[n_], c1[n_]] for n_ in c0 if c0[n_] != c1[n_])})
         ad = BigAdapter(t2grids, grid)
         tr = [{"act": {"op": "init"}, "state": ad.project()}]
         ok = True
@@ -394,7 +413,7 @@ class BigAdapter(gridmodel.Adapter):
         if mode == "cycle":
             dst = src[1:] + src[:1]
         elif mode == "fresh":
-            dst = ["%s%3d" % (rng.choice(["zz", "yy"]), i) for i in rng.sample(range(100, 999), k)]
+            dst = ["%s%3d" % (rng.choice(["zz", "yy", "+z", "#y", "-a"]), i) for i in rng.sample(range(100, 999), k)]     # punctuation is legal in the first three characters
         else:
             dst = src[1:] + ["ww%3d" % rng.randint(100, 999)]
         return {"op": "rename_blocks", "m": dict((self.an(s), self.an(d)) for s, d in zip(src, dst))}
